@@ -27,7 +27,7 @@ META = dict(
     text="Every combination of builder, 9 potential kinds, exit-plane settings, 6 detector sets, 5 scans and 3 max_batch values is run eagerly "
          "and lazily and compared (values, shape, type, axes, metadata, outcome class); incident waves are rechunked with every composition; "
          "and for every ensemble case the real task graph is executed under all linear extensions of its abTEM tasks (<= 120 quick / 720 "
-         "thorough, else every completed deviation level 0, 1, 2, 3 that fits a budget of 400 / 600 runs per graph (quick: levels <= 2)) by a scheduler we own, with a per-task input-mutation monitor.",
+         "thorough, else every completed deviation level 0, 1, 2, 3 that fits a budget of 400 / 600 runs per graph (quick: levels <= 2)) by a scheduler we own, with a per-task input-mutation monitor. One set of builder / potential / detector / scan objects is reused for eager-lazy run sequences (space R) and every subset of 5-6 different lazy simulations is evaluated in one dask graph (space J).",
     note="Task-atomic interleavings only: pre-emption inside a task is covered by the mutation monitor's commutation argument and a free-running "
          "threaded pass (sampling, reported as such). State the monitor cannot digest (FFTW wisdom, numba caches) is not modelled. Grids 16x12, "
          "<= 4 slices, <= 3 configurations, <= 6 positions. cpu only.",
